@@ -21,5 +21,6 @@ mod c07_alloc;
 mod c07_ports;
 mod c09_wire;
 mod c10_open;
+mod c13_deque;
 mod c13_vec;
 mod c99_tmp;
